@@ -12,6 +12,11 @@ ALL = [f"C{i:02d}" for i in range(1, 21)]
 
 # property -> (category, technique, level text, level note, design ref)
 CHECKS = {
+    "C15": ("exploration",
+            "property-based concurrency testing (rapid-generated writer scripts, concurrent readers, interval linearizability oracle) under the Go race detector",
+            "Generated writer scripts produce a known sequence of complete cache states; concurrent readers bracket every List/Get with the writer's progress counters and each result must equal the state at some index inside the bracket (interval linearizability), with per-reader monotonicity and caller-owned slices; the binary is built with -race so any data race on cache state fails the check. Exploration: schedules are sampled (GOMAXPROCS variation, reader yields), not enumerated.",
+            "Schedules come from the Go scheduler; a race needing an interleaving the runs never hit is missed. Uses the add-only hook NewVerifCache.",
+            "DESIGN.md section 4, C15"),
     "C01": ("exploration",
             "model-based stateful property testing (rapid state machine) + bounded-exhaustive state x operation enumeration against a reference cache model",
             "The real cache actor is driven by generated sync/update/refilter histories (duplicates, stale, zero, negative and non-numeric versions, empty lists) and compared with a reference map model after every operation through List and Get; the universe named in the property (2 keys x 6 versions x 2 labels x 4 filters) is enumerated completely in the thorough tier: every single next operation from every reachable state. A crash of the cache goroutine kills the worker and is reported as a violation with the operation trace. Exploration: the cache is a sequential actor, so a reference model plus search over histories is the natural deciding method; it is exhaustive only for the stated small universe.",
